@@ -884,6 +884,18 @@ def gen_scenario(rng, kmode=None):
     kmode = kmode or rng.choice(["same", "same", "up", "up", "any"])
     style = rng.choice(["nounits"] * 5 + ["units"] * 13 + ["bad"] * 2)
     axes = [gen_axis(rng, n, kmode, style != "nounits") for n in shape]
+    if style == "units" and rng.random() < 0.3:
+        # stratum "shared tag unit" (seed C08-r8: a scaling factor remembered per tag-unit text): two axes carry the
+        # SAME tag unit while their dimensions' units differ in prefix, so each axis needs its own factor
+        real = [ax for ax in axes if ax["kind"] != "set"]
+        if len(real) >= 2:
+            first = real[0]
+            for ax in real[1:]:
+                ax["base"], ax["tp"] = first["base"], first["tp"]
+                others = [q for q in PREFS if q != first["dp"] and
+                          (kmode == "any" or 0 <= SI_EXP[ax["tp"]] - SI_EXP[q] <= 6)]
+                if others:
+                    ax["dp"] = rng.choice(others)
     units = []
     if style != "nounits":
         for ax in axes:
